@@ -1267,6 +1267,11 @@ _CMDLINES = [
     ('E-xc', ['-E', '-xc'], [_A1], [], ['cc1']),
     ('E+o-x-asm', ['-E', '-o', _OUT, '-x', 'assembler'], [_A1], [], ['cc1']),
     ('M-c', ['-M'], [_C1], [], ['cc1']),
+    ('E+c', ['-E', '-c'], [_C1], [], ['cc1']),                  # the earlier phase wins: -E/-M over -S over -c
+    ('E+S', ['-S', '-E'], [_C1], [], ['cc1']),
+    ('M+c', ['-M', '-c'], [_C1], [], ['cc1']),
+    ('M+S+o', ['-M', '-S', '-o', _OUT], [_C1], [], ['cc1']),
+    ('S+c', ['-c', '-S'], [_C1, _A1], [_stem(_C1) + '.s'], ['cc1']),
     ('E-mixed', ['-E'], [_C1, _A1], [], ['cc1', 'cc1']),
     ('M-asm-suffix', ['-M'], [_A1], [], (['cc1'], [])),         # preprocessed like -E, or left alone as other drivers do
     ('M-x-asm', ['-M', '-x', 'assembler'], [_C1], [], (['cc1'], [])),
@@ -1648,6 +1653,7 @@ def _r148_handover(P, u, rep, cg, facts, pure):
     if gone:
         rep.undecided('R14.8', '%s:run_cc1:handover-globals' % U, 'globals %s not found: cannot tell where parse_args stores the names run_cc1 hands over' % '/'.join(gone))
         return
+    to_launcher = cg.reaches(set(launchers))
     base = ['chibicc', '-c', 'x.c']
     src = 'sub.d/net.v4.c'
     w = _where(u.fn('run_cc1'))
@@ -1657,7 +1663,7 @@ def _r148_handover(P, u, rep, cg, facts, pure):
         inp = L.cbuf(src, 'input')
         outp = L.cbuf(outname, 'output') if outname is not None else 0
         try:
-            it = L.make_interp(P, u, opaque=[f for f in u.functions if f not in pure and f != 'run_cc1'], extra_models=L.string_models(),
+            it = L.make_interp(P, u, opaque=[f for f in u.functions if f not in pure and f != 'run_cc1' and (f in launchers or f not in to_launcher)], extra_models=L.string_models(),
                                globals_=_zero_statics(u, {}), loop_limit=1)
             ps = it.explore('run_cc1', lambda ctx: [len(base), _Ref(ElemPlace(argv, 0)), inp, outp], max_paths=200)
         except AnalysisBroken as e:
